@@ -56,3 +56,12 @@ func (c *Conn) VerifType() ConnType { return c.typ }
 // VerifCloseStateNoLock is VerifCloseState without the mutex, for the moments the harness itself has
 // parked the goroutine that holds it (a read task paused inside its read).
 func (c *Conn) VerifCloseStateNoLock() (bool, error) { return c.closed, c.closeErr }
+
+// VerifNewUDPClient builds a dialed UDP Conn around fd (what dupStdConn builds for a *net.UDPConn with a remote
+// address): datagrams are handed over on the conn itself.
+func VerifNewUDPClient(fd int) *Conn {
+	c := &Conn{fd: fd, typ: ConnTypeUDPClientFromDial,
+		lAddr: &net.UDPAddr{IP: net.IPv4(127, 0, 0, 1), Port: 9}, rAddr: &net.UDPAddr{IP: net.IPv4(127, 0, 0, 1), Port: 4000}}
+	c.connUDP = &udpConn{parent: c}
+	return c
+}
